@@ -84,6 +84,12 @@ func batchBody(p batchParams, out *batchObs) func() {
 			cl = sim.NewCluster("rs0:1")
 			cl.AddTable("t", []string{"m"}, []string{"rs1:1"})
 		}
+		if p.pre == "two-merges" {
+			// five regions; [b,c)+[c,d) and [d,e)+[e,) are merged after the client has located
+			// [,b) [b,c) and [d,e); two single gets locate the merged regions concurrently
+			cl = sim.NewCluster("rs0:1")
+			cl.AddTable("t", []string{"b", "c", "d", "e"}, []string{"rs1:1", "rs2:1"})
+		}
 		w := newWorld(cl)
 		out.w = w
 		ctx, cancel := context.WithCancel(context.Background())
@@ -106,6 +112,25 @@ func batchBody(p batchParams, out *batchObs) func() {
 			}
 			for _, c := range []byte(p.scripts[i]) {
 				cl.KeyScript[k] = append(cl.KeyScript[k], outcomeClass[c])
+			}
+		}
+		if p.pre == "two-merges" {
+			for _, k := range []string{"a1", "b1", "d1"} {
+				g, _ := hrpc.NewGetStr(context.Background(), "t", k)
+				if _, err := w.client.Get(g); err != nil {
+					panic("warm-up failed: " + err.Error())
+				}
+			}
+			r1, r2 := cl.Owner("t", []byte("b1")), cl.Owner("t", []byte("c5"))
+			cl.Merge(r1, r2, r2.Server)
+			r3, r4 := cl.Owner("t", []byte("d1")), cl.Owner("t", []byte("e5"))
+			cl.Merge(r3, r4, r3.Server)
+			for _, k := range []string{"c5", "e5"} {
+				k := k
+				vrt.GoNamed("h:getter-"+k, func() {
+					g, _ := hrpc.NewGetStr(context.Background(), "t", k)
+					w.client.Get(g)
+				})
 			}
 		}
 		if p.pre == "merge" || p.pre == "merge-half" {
